@@ -6,7 +6,7 @@ from fractions import Fraction
 from ..core import Machinery
 from ..session import ObjSession
 
-SYM = {"A": "BTC-USDT", "B": "ETH-USDT"}
+SYM = {"A": "BTC-USDT", "B": "ETH-USDT", "C": "LTC-USDT"}
 TYP_R = {"MARKET": "MKT", "LIMIT": "LMT", "STOP": "STP"}
 RSYM = {v: k for k, v in SYM.items()}
 TYP = {"MKT": "MARKET", "LMT": "LIMIT", "STP": "STOP"}
